@@ -222,7 +222,7 @@ class GroupAdditivityScheme(Scheme):
             if matches:
                 descriptors[descriptor['name']] += len(matches)
         for descriptor in self.smiles_based_descriptors:
-            matches = clean_mol.GetSubstructMatches(descriptor['smiles'],
+            matches = clean_mol.GetSubstructMatches(descriptor['smarts'],
                                                     useChirality=descriptor
                                                     ['useChirality'])
             matches = set([frozenset(match) for match in matches])
